@@ -90,6 +90,14 @@ func buildEvidence(prop, tier string, seed uint64, plan Plan, results []runOut, 
 		"enumerated_cases":    plan.Enumerated,
 		"planned_runs":        plan.Runs,
 		"skipped_by_budget":   skipped,
+		"slow_runs_retried": func() (n int) {
+			for i := range results {
+				if results[i].retried {
+					n++
+				}
+			}
+			return
+		}(),
 		"distinct_runs":       len(distinct),
 		"distinct_schedules":  len(scheds),
 		"distinct_scenarios":  len(scens),
